@@ -83,6 +83,9 @@ def run(tier):
     # never draw a random number): state of a random generator carried from one compilation to the next shows only here
     histories.append([st("branchy", 9), st("branchy", 11), st("branchy", 9), st("branchy", 25, entry="convert_bytes"), st("branchy", 11, entry="convert")])
     histories.append([st("branchy", 25), st("branchy", 25), st("branchy", 9, entry="convert_bytes")])
+    # a model whose subgraph carries no name (the field is optional): names derived from it must not depend on the entry point
+    histories.append([st("mixed_cpu!anon", 1, entry="convert_bytes"), st("mixed_cpu!anon", 1, entry="convert"), st("mixed_cpu!anon", 1),
+                      st("single:conv!anon", 2, entry="convert_bytes"), st("single:conv!anon", 2)])
     histories.append([st("multi_custom", 1), st("multi_custom", 2), st("multi_custom", 1, entry="convert_bytes")])
     histories.append([st("lut_heavy", 1), st("lut_heavy", 1)])
     histories.append([st("lut_heavy", 1), st("lut_heavy", 2), st("lut_heavy", 1), st("lut_heavy", 1, entry="convert"), st("lut_heavy", 1, entry="convert_bytes")])
